@@ -99,6 +99,11 @@ def bases(ctx):
         out.append((f"multiframe-p{proto}", pickle.dumps({"meta": meta, "k": [vp_sink.KReduce(1)]}, proto)))
         out.append((f"multiframe-large-str-p{proto}",
                     pickle.dumps([vp_sink.KReduce(1), meta, "x" * 70000, vp_sink.KReduce(2), sorted(meta)], proto)))
+    for proto in (4, 5):
+        # a large object written outside the frames and followed by only a few opcodes
+        out.append((f"blob-last-dict-p{proto}", pickle.dumps({"step": 1, "weights": b"x" * 100000}, proto)))
+        out.append((f"blob-last-list-p{proto}", pickle.dumps([vp_sink.KReduce(3), "y" * 70000], proto)))
+        out.append((f"blob-only-p{proto}", pickle.dumps((b"w" * 65536,), proto)))
     nval = {"quick": 30, "thorough": 700}[ctx.tier]
     vals = special + [v for v in workload.values(ctx.seed, nval)][len(gen.directed_values()):]
     for v in vals:
@@ -310,6 +315,11 @@ def check(ctx, f, analysis, label, base, mode, opt):
         return
     if not ops or ops[-1][0] != "STOP" or sum(1 for n, _ in ops if n == "STOP") != 1:
         agg.violation(f"stop-structure:{mode}", "rewritten pickle does not end with its single STOP", w)
+    if gen.frames_wellformed(base) is None:
+        agg.count("framing_checked")
+        fault = gen.frames_wellformed(out)
+        if fault is not None:
+            agg.violation(f"rewritten-framing:{mode}", f"the base is well framed, the rewritten pickle is not: {fault}", w)
     if mode == "insert_magic_int" and not any(n == "INT" and a == opt["magic"] for n, a in ops):
         agg.violation("magic-int-missing", "marker integer not present in the rewritten pickle", w)
     # load with the original C unpickler (and the Python one where applicable)
